@@ -270,6 +270,38 @@ func Font(r *rand.Rand, o Opts) (*sfnt.Font, *Info) {
 			// extra keys that GetBest ignores
 			f.CMapTable[cmap.Key{PlatformID: 0, EncodingID: 1}] = enc
 			f.CMapTable[cmap.Key{PlatformID: 3, EncodingID: 0}] = cmap.Format4{0xf041: 1}.Encode(0)
+			if r.IntN(2) == 0 && n > 1 {
+				// a byte encoding table (format 0) under the symbol key
+				sym := []byte{0, 0, 1, 6, 0, 0}
+				sym = append(sym, make([]byte, 256)...)
+				for i := 0; i < 4; i++ {
+					sym[6+0x20+r.IntN(0xE0)] = byte(1 + r.IntN(min(n-1, 255)))
+				}
+				f.CMapTable[cmap.Key{PlatformID: 3, EncodingID: 0}] = sym
+				info.Classes = append(info.Classes, "cmap:format0-under-symbol-key")
+			}
+			if r.IntN(2) == 0 {
+				// the Macintosh subtable old TrueType fonts carry next to the
+				// Unicode one: the Mac Roman part of the same mapping, format 6
+				lo, hi := 256, -1
+				mac := map[int]glyph.ID{}
+				for code := 0x20; code < 256; code++ {
+					if g, ok := codes[tabread.MacRomanRune(byte(code))]; ok {
+						mac[code] = g
+						lo, hi = min(lo, code), max(hi, code)
+					}
+				}
+				if hi >= 0 {
+					cnt := hi - lo + 1
+					l := 10 + 2*cnt
+					d := []byte{0, 6, byte(l >> 8), byte(l), 0, 0, byte(lo >> 8), byte(lo), byte(cnt >> 8), byte(cnt)}
+					for code := lo; code <= hi; code++ {
+						d = append(d, byte(mac[code]>>8), byte(mac[code]))
+					}
+					f.CMapTable[cmap.Key{PlatformID: 1, EncodingID: 0}] = d
+					info.Classes = append(info.Classes, "cmap:mac-next-to-unicode")
+				}
+			}
 		}
 	case "12", "both":
 		m := cmap.Format12{}
